@@ -374,6 +374,8 @@ class World:
             'others_already_over_capacity': 0, 'zero_request': 0,
             'update_inherits_traits': 0, 'update_without_partition': 0,
             'stale_traits_stored': 0,
+            'decimal_spelling_in_play': 0, 'lowercase_b_spelling_in_play': 0,
+            'request_spelling_rejected_by_schema': 0,
             'deleted': 0, 'allocation_deleted_with_reservations': 0,
         }
         # counters that are zero by construction on a generated history
@@ -388,6 +390,8 @@ class World:
             'partition_removed': 0, 'admin_written_reservation': 0,
         }
         self.cells = list(config['cells'])
+        self.part_text = {}     # (cell, name) -> size spellings written
+        self._synced = False
         # static universe, written through the real admin classes
         for cell in self.cells:
             self.backend.cell().create(cell, {'version': '1',
@@ -401,8 +405,9 @@ class World:
 
     # -- ops
     def apply(self, op):
+        self._synced = False
         getattr(self, 'op_' + op['op'])(op)
-        if self.violation is None:
+        if self.violation is None and not self._synced:
             self._sync_state()
         self.fps.append(logmod.fingerprint(self.model.abstract()))
 
@@ -425,6 +430,9 @@ class World:
             adm.create([name, cell], attrs)
         part = Model.partition(op)
         self.model.parts[(cell, name)] = part
+        self.part_text[(cell, name)] = [
+            doc[dim] for doc in [op] + list(op['limits'])
+            for dim in ('memory', 'disk')]
         # self-check of the directory fake + real encode/decode round trip
         back = adm.get([name, cell], dirty=True)
         if back is None or Model.partition(back) != part:
@@ -439,6 +447,7 @@ class World:
             return self._skip('no such partition')
         self.backend.partition().delete([op['name'], op['cell']])
         del self.model.parts[key]
+        self.part_text.pop(key, None)
         self.faults['partition_removed'] += 1
         return None
 
@@ -530,6 +539,9 @@ class World:
         eff = Model.reservation(rsrc, old)
         bad = model.misfit(key, cell, eff)
         marginal = kind == 'update' and 'partition' not in rsrc
+        # a decimal spelling in a request: the API's schema does not admit it
+        offschema = any(is_decimal(rsrc[dim]) for dim in ('memory', 'disk')
+                        if dim in rsrc)
 
         # reach probes / non-triviality (all from the model, before the call)
         part = model.parts.get((cell, eff['partition']))
@@ -560,6 +572,12 @@ class World:
         if any(dim in rsrc and rsrc[dim] != canonical_size(eff[dim])
                for dim in ('memory', 'disk')):
             probes['mixed_spelling'] += 1
+        texts = list(self.part_text.get((cell, eff['partition']), [])) + [
+            o['text'][dim] for o in others for dim in ('memory', 'disk')]
+        if any(is_decimal(text) for text in texts):
+            probes['decimal_spelling_in_play'] += 1
+        if any(text.endswith('b') for text in texts):
+            probes['lowercase_b_spelling_in_play'] += 1
         if kind == 'update':
             if marginal:
                 probes['update_without_partition'] += 1
@@ -622,6 +640,10 @@ class World:
                     ':stale-traits' if stale else '')
             return None
 
+        if outcome == 'invalid' and offschema:
+            # a spelling the API's schema does not admit: a rejected request
+            probes['request_spelling_rejected_by_schema'] += 1
+            return None
         if outcome == 'invalid' and marginal:
             # an update that names no partition: rejecting it as malformed
             # input is a legal answer
@@ -664,6 +686,7 @@ class World:
                         'stored reservation %r has a quantity the harness '
                         'cannot parse: %s' % (res, err))
         self.model.res = stored
+        self._synced = True
 
 
 # ---------------------------------------------------------------------------
@@ -680,26 +703,58 @@ MEM_CHOICES = [0, 64 * M, 128 * M, 256 * M, 512 * M, G, G, 2 * G, 3 * G, 4 * G]
 DISK_CHOICES = [0, 512 * M, G, 2 * G, 5 * G, 10 * G]
 
 
-def spell_size(rng, nbytes):
-    """One of the spellings of the same quantity ('1G', '1024M', '1048576k')."""
-    units = [('K', K)]
-    if nbytes % M == 0:
-        units.append(('M', M))
-    if nbytes % G == 0:
-        units.append(('G', G))
+KD = 10 ** 3
+MD = 10 ** 6
+GD = 10 ** 9
+
+
+def _letter_case(rng, suffix):
+    x = rng.random()
+    if x < 0.5:
+        return suffix
+    if x < 0.7:
+        return suffix.lower()
+    return ''.join(c.lower() if rng.random() < 0.5 else c for c in suffix)
+
+
+def spell_size(rng, nbytes, decimal=False):
+    """One of the exact spellings of the same quantity: '1G', '1024M',
+    '1048576k', and with `decimal` also '3GB', '3000mb', '3000000Kb' ...
+    (every letter in either case)."""
+    units = []
+    for suffix, mult in (('K', K), ('M', M), ('G', G)):
+        if nbytes % mult == 0:
+            units.append((suffix, mult))
+    if decimal or not units:
+        dec = [(suffix, mult)
+               for suffix, mult in (('KB', KD), ('MB', MD), ('GB', GD))
+               if nbytes % mult == 0]
+        if decimal and dec:
+            units = dec
+        elif not units:
+            units = dec
+    if not units:
+        raise simkit.HarnessError('no exact spelling of %d bytes' % nbytes)
     if rng.random() < 0.6:
         suffix, mult = units[-1]
     else:
         suffix, mult = rng.choice(units)
-    if rng.random() < 0.2:
-        suffix = suffix.lower()
-    return '%d%s' % (nbytes // mult, suffix)
+    return '%d%s' % (nbytes // mult, _letter_case(rng, suffix))
 
 
-def spell(rng, dim, value):
+def spell(rng, dim, value, decimal=False):
     if dim == 'cpu':
         return '%d%%' % value
-    return spell_size(rng, value)
+    return spell_size(rng, value, decimal)
+
+
+def to_decimal(nbytes):
+    """The decimal look-alike of a binary quantity (2G -> 2GB, 512M -> 512MB)."""
+    return nbytes // G * GD + nbytes % G // M * MD
+
+
+def is_decimal(text):
+    return text[-1:] in 'bB'
 
 
 class Generator:
@@ -748,21 +803,30 @@ class Generator:
         cap = {'cpu': rng.choice(cfg['cap_cpu']),
                'memory': rng.choice(cfg['cap_mem']),
                'disk': rng.choice(cfg['cap_disk'])}
+        # quantities written into the directory may be spelled in decimal
+        # units (KB/MB/GB, any letter case) as well
+        dec = {dim: dim != 'cpu' and rng.random() < cfg['p_decimal']
+               for dim in DIMS}
+        for dim in DIMS:
+            if dec[dim]:
+                cap[dim] = to_decimal(cap[dim])
         limits = []
         for trait in cfg['limited_traits']:
             if rng.random() < cfg['p_limits']:
                 lim = {'trait': trait}
                 for dim in DIMS:
                     frac = rng.choice([0, 0.25, 0.5, 0.5, 0.75, 1.0, 1.5])
-                    grain = 10 if dim == 'cpu' else 128 * M
+                    ldec = dim != 'cpu' and rng.random() < cfg['p_decimal']
+                    grain = 10 if dim == 'cpu' else (
+                        100 * MD if ldec else 128 * M)
                     val = int(cap[dim] * frac) // grain * grain
-                    lim[dim] = spell(rng, dim, val)
+                    lim[dim] = spell(rng, dim, val, ldec)
                 limits.append(lim)
         rng.shuffle(limits)
         op = {'op': 'set_partition', 'cell': cell, 'name': name,
               'limits': limits}
         for dim in DIMS:
-            op[dim] = spell(rng, dim, cap[dim])
+            op[dim] = spell(rng, dim, cap[dim], dec[dim])
         return op
 
     def g_set_partition(self, world):
@@ -821,11 +885,14 @@ class Generator:
             return rng.choice(have)
         return rng.choice(self.config['part_names'])
 
-    def _sizes(self, world, key, partition, traits):
-        """Request sizes by intent, looking at what the model says is free."""
+    def _sizes(self, world, key, partition, traits, p_decimal):
+        """Request sizes by intent, looking at what the model says is free.
+        Sizes are whole K (what the API's schema can express); with
+        probability `p_decimal` a size is spelled in decimal units instead."""
         rng = self.rng
         free = world.model.free(key, key[1], partition, traits)
-        room = {dim: max(free[dim], 0) for dim in DIMS}
+        room = {dim: max(free[dim], 0) // UNIT[dim] * UNIT[dim]
+                for dim in DIMS}
         intent = rngmod.weighted(rng, self.config['intents'])
         size = {'cpu': rng.choice(CPU_CHOICES),
                 'memory': rng.choice(MEM_CHOICES),
@@ -850,7 +917,13 @@ class Generator:
                 size[edge] = room[edge] + UNIT[edge]
             elif intent == 'under':
                 size[edge] = max(room[edge] - UNIT[edge], 0)
-        return {dim: spell(rng, dim, size[dim]) for dim in DIMS}
+        out = {}
+        for dim in DIMS:
+            if dim != 'cpu' and rng.random() < p_decimal:
+                out[dim] = spell(rng, dim, size[dim] // MD * MD, True)
+            else:
+                out[dim] = spell(rng, dim, size[dim])
+        return out
 
     def _extras(self, rsrc):
         rng = self.rng
@@ -867,7 +940,9 @@ class Generator:
         key = rng.choice(ids)
         partition = self._partition_choice(world, key[1])
         traits = self._traits()
-        rsrc = self._sizes(world, key, partition, traits)
+        rsrc = self._sizes(world, key, partition, traits,
+                           self.config['p_decimal'] if admin
+                           else self.config['p_req_decimal'])
         if admin or partition != alloccheck.DEFAULT_PARTITION or \
                 rng.random() < 0.5:
             rsrc['partition'] = partition
@@ -904,7 +979,8 @@ class Generator:
                 traits = list(old['traits'])
         if not traits and not old['traits'] and rng.random() < 0.5:
             send_traits = False
-        rsrc = self._sizes(world, key, partition, traits)
+        rsrc = self._sizes(world, key, partition, traits,
+                           cfg['p_req_decimal'])
         if not (partition == old['partition'] and
                 rng.random() < cfg['upd_omit_partition']):
             rsrc['partition'] = partition
@@ -960,6 +1036,12 @@ def make_config(prop, tier, rng):
         'upd_omit_traits': rng.choice([0.0, 0.0, 0.3]),
         'upd_empty_traits': rng.random() < 0.3,
         'upd_omit_partition': rng.choice([0.0, 0.0, 0.0, 0.15]),
+        # decimal unit spellings (KB/MB/GB in any letter case): of what is
+        # written into the directory (capacities, limits, administrator-
+        # written reservations), and of requests (not admitted by the API's
+        # schema: such a request is rejected as malformed)
+        'p_decimal': rng.choice([0.0, 0.25, 0.5]),
+        'p_req_decimal': rng.choice([0.0, 0.0, 0.05]),
     }
     cfg['intents'] = [
         ['random', rng.choice([20, 40])], ['small', rng.choice([10, 30])],
@@ -1009,7 +1091,11 @@ class AllocSim(enginemod.Engine):
                 'generator issues create/update/delete requests whose sizes '
                 'are drawn by intent (random, fraction of what is free, '
                 'exactly what is free, one unit more, one unit less, zero) '
-                'in mixed unit spellings, interleaved with partition '
+                'in mixed unit spellings (K/M/G in either case; capacities, '
+                'limits and administrator-written reservations also in '
+                'decimal KB/MB/GB with every letter in either case: gb, Gb, '
+                'gB ...; a few requests too, which the API schema rejects), '
+                'interleaved with partition '
                 'resize/removal and allocation add/delete; every response of '
                 'the real API is compared with the reference model (the '
                 'merged request against the other reservations AS STORED, '
@@ -1029,7 +1115,11 @@ class AllocSim(enginemod.Engine):
             '"fits" means request + sum(others) <= capacity in each of cpu, '
             'memory, disk (equality fits), against the partition and against '
             'each limited trait the resulting reservation carries; memory '
-            'and disk are binary multiples (1G = 1024M = 1048576K)',
+            'and disk are binary multiples (1G = 1024M = 1048576K) unless a '
+            'B or b follows the unit letter, then decimal (1GB = 1gb = 1Gb = '
+            '1000MB), in any letter case, as utils.size_to_bytes documents',
+            'a request whose spelling the API schema does not admit (decimal '
+            'units) may be rejected as malformed input whatever its size',
             'an update changes the fields it names and keeps the others; the '
             'expectation judges that merged request (an empty trait list '
             'means no traits); the other reservations count as they are '
@@ -1052,7 +1142,7 @@ class AllocSim(enginemod.Engine):
         ]
 
     def quick_runs(self, prop):
-        return 6400
+        return 4000
 
     def make_config(self, prop, tier, rng):
         return make_config(prop, tier, rng)
